@@ -246,6 +246,7 @@ theorem cmdRegister_good (env : Env) (pruning : Int) (sv : Services) (host names
     | none => exact good_idle pruning now sv h
     | some ss =>
       dsimp only
+      rw [if_pos (hashable_true _)]
       obtain ⟨i1, _, e1, v1⟩ := regLoop_spec env (host, port) now ss sv h
       exact ⟨i1, e1, fun n x => by rw [v1]; rfl⟩
 
@@ -254,6 +255,7 @@ theorem cmdUnregister_good (env : Env) (pruning : Int) (sv : Services) (host por
       (intentCall env host .unregister [port])
     ∧ (cmdUnregister sv host port).out = .ok ack := by
   unfold cmdUnregister
+  rw [if_pos (hashable_true _)]
   have hnd : ((sv.map Prod.fst).map keyCode).Nodup := by
     rw [map_fst_keys]; exact h.1
   have hp : ∀ m ∈ sv.map Prod.fst, (alFind keyCode sv (keyCode m)).isSome = true := by
